@@ -40,7 +40,7 @@ func classifyFor(a, b Schema, inspected bool) string {
 // "status": "fixed: ..."): they are generated like any other input, classify does not report them, and
 // a violation on them is a new violation again (so reverting the patch is caught with a failing input).
 // classifyRaw still recognises them: the witness streams of the oracle stage keep running as regression tests.
-var fixedClasses = map[string]bool{"check-parens": true, "drop-inline-unique": true, "gen-col-name-prefix": true, "pk-order": true}
+var fixedClasses = map[string]bool{"check-parens": true, "drop-inline-unique": true, "gen-col-name-prefix": true, "pk-order": true, "raw-default-parens": true}
 
 func classify(a, b Schema) string {
 	var keep []string
